@@ -146,7 +146,7 @@ func checkC07(p *Program, r *Report) {
 				if i := strings.Index(o, "["); i >= 0 {
 					j := strings.Index(o[i:], "]")
 					name := o[i+1 : i+j]
-					if v, ok := va.idxVals[name]; ok {
+					if v, ok := va.idx(fn)[name]; ok {
 						if _, isConst := v.(*ssa.Const); isConst {
 							continue
 						}
